@@ -233,6 +233,10 @@ pub enum Msg {
     Batch(Vec<Item>),
     /// the intercept rule's query in some spelling
     Intercept(u8),
+    /// the same through the extended protocol: Parse/Bind/Execute/Sync of the rule's query
+    InterceptExt(u8),
+    /// named statements: Parse n0..nk + Sync, then in a second batch Bind/Execute of each name + Sync
+    NamedThenBind(Vec<Item>),
     /// Parse/Bind/Execute of these statements WITHOUT Sync, then a harmless simple query, then the Sync (a message order
     /// real drivers avoid, but any client can produce it); ends the session
     BatchThenQuery(Vec<Item>),
@@ -244,6 +248,9 @@ pub struct WireCase {
     pub in_txn: bool,
     pub session_mode: bool,
     pub msgs: Vec<Msg>,
+    /// prepared_statements_cache_size > 0
+    #[serde(default)]
+    pub cache: bool,
 }
 
 pub struct WirePart;
@@ -260,7 +267,7 @@ impl Part for WirePart {
         true
     }
     fn rule(&self) -> String {
-        "sessions of 1..6 messages (simple queries of 1..3 statements, Parse/Bind/Execute batches of 1..3 statements, the intercept rule's query in 4 spellings, a Parse/Bind/Execute batch whose Sync is preceded by a harmless simple query), optionally inside BEGIN..ROLLBACK, transaction or session mode, plugins enabled or disabled, against the real binary; oracle: a message containing a must-deny statement is answered with ErrorResponse and none of its statement tags is ever received by a backend; the intercepted query returns exactly the configured rows and is not forwarded; with plugins disabled every tag arrives. Non-trivial = must-deny statement not first in its message, inside a transaction, or in an extended batch".into()
+        "sessions of 1..6 messages (simple queries of 1..3 statements, Parse/Bind/Execute batches of 1..3 statements, the intercept rule's query in 4 spellings over the simple and the extended protocol, a Parse/Bind/Execute batch whose Sync is preceded by a harmless simple query, named statements parsed in one batch and bound/executed in the next), statement cache on or off, optionally inside BEGIN..ROLLBACK, transaction or session mode, plugins enabled or disabled, against the real binary; oracle: a message containing a must-deny statement is answered with ErrorResponse and none of its statement tags is ever received by a backend; the intercepted query returns exactly the configured rows and is not forwarded; with plugins disabled every tag arrives. Non-trivial = must-deny statement not first in its message, inside a transaction, or in an extended batch".into()
     }
     fn cases(&self, tier: Tier) -> u64 {
         tier.pick(1_200, 16_000)
@@ -270,10 +277,12 @@ impl Part for WirePart {
             5 => prop::collection::vec(item_strategy(), 1..4).prop_map(Msg::Q),
             4 => prop::collection::vec(item_strategy(), 1..4).prop_map(Msg::Batch),
             1 => (0u8..4).prop_map(Msg::Intercept),
+            1 => (0u8..4).prop_map(Msg::InterceptExt),
+            2 => prop::collection::vec(item_strategy(), 1..3).prop_map(Msg::NamedThenBind),
             1 => prop::collection::vec(item_strategy(), 1..3).prop_map(Msg::BatchThenQuery),
         ];
-        (prop::bool::weighted(0.85), any::<bool>(), prop::bool::weighted(0.25), prop::collection::vec(msg, 1..7))
-            .prop_map(|(enabled, in_txn, session_mode, msgs)| WireCase { enabled, in_txn, session_mode, msgs })
+        (prop::bool::weighted(0.85), any::<bool>(), prop::bool::weighted(0.25), prop::collection::vec(msg, 1..7), any::<bool>())
+            .prop_map(|(enabled, in_txn, session_mode, msgs, cache)| WireCase { enabled, in_txn, session_mode, msgs, cache })
             .boxed()
     }
     fn run(&self, c: &WireCase, ctx: &mut WorkerCtx) -> Outcome {
@@ -295,6 +304,9 @@ fn config(mocks: &[crate::mock::MockServer], c: &WireCase) -> PgcatConfig {
     pool.set("query_parser_enabled", "true");
     if c.session_mode {
         pool.set("pool_mode", "\"session\"");
+    }
+    if c.cache {
+        pool.set("prepared_statements_cache_size", "8");
     }
     pool.raw_tail = format!(
         "[pools.db.plugins]\n\n[pools.db.plugins.table_access]\nenabled = {en}\ntables = [\"secrets\", \"pg_shadow\"]\n\n[pools.db.plugins.intercept]\nenabled = {en}\n\n[pools.db.plugins.intercept.queries.0]\nquery = \"select current_database() as a, current_schemas(false) as b\"\nschema = [[\"a\", \"text\"], [\"b\", \"text\"]]\nresult = [[\"${{DATABASE}}\", \"{{public}}\"], [\"row2\", \"\"]]\n",
@@ -339,16 +351,30 @@ async fn run_wire(c: &WireCase, ctx: &mut WorkerCtx) -> Outcome {
     'msgs: for (mi, msg) in c.msgs.iter().enumerate() {
         o.sub_evaluations += 1;
         match msg {
-            Msg::Intercept(k) => {
+            Msg::Intercept(k) | Msg::InterceptExt(k) => {
+                let ext = matches!(msg, Msg::InterceptExt(_));
                 let sql = INTERCEPT_SQL[*k as usize % 4];
                 let before = env.shared.len();
-                let (m, e) = cli.simple(sql, wire::T_REPLY).await;
+                let (m, e) = if ext {
+                    let mut b = proto::parse("", sql, &[]);
+                    b.extend_from_slice(&proto::bind("", "", &[], &[], &[]));
+                    b.extend_from_slice(&proto::execute("", 0));
+                    b.extend_from_slice(&proto::sync());
+                    cli.send(&b).await;
+                    o.label("intercept_extended");
+                    if !c.in_txn {
+                        o.nontrivial = true;
+                    }
+                    cli.read_until_ready(wire::T_REPLY).await
+                } else {
+                    cli.simple(sql, wire::T_REPLY).await
+                };
                 if !matches!(e, ReadEnd::Ready(_)) {
                     o.inconclusive = Some(format!("intercept query ended {:?}", e));
                     break;
                 }
                 let matches_rule = *k % 4 != 3;
-                let forwarded = env.log()[before..].iter().any(|ev| matches!(&ev.kind, EvKind::Rx { code: b'Q', own: false, .. }));
+                let forwarded = env.log()[before..].iter().any(|ev| matches!(&ev.kind, EvKind::Rx { code: b'Q' | b'P' | b'B' | b'E', own: false, .. }));
                 if c.enabled && matches_rule {
                     o.label("intercepted");
                     let rows: Vec<Vec<Option<Vec<u8>>>> = m.iter().filter(|x| x.code == b'D').filter_map(|x| proto::data_row_cols(&x.body).ok()).collect();
@@ -364,6 +390,56 @@ async fn run_wire(c: &WireCase, ctx: &mut WorkerCtx) -> Outcome {
                 } else if !forwarded {
                     o.fail("unmatched-query-not-forwarded", format!("{:?} (plugins enabled={}) was not forwarded", sql, c.enabled));
                     break;
+                }
+            }
+            Msg::NamedThenBind(items) => {
+                let mut tags = vec![];
+                let mut sqls = vec![];
+                let mut b1 = vec![];
+                let mut b2 = vec![];
+                for (k, it) in items.iter().enumerate() {
+                    let t = cli.tag();
+                    tags.push(t);
+                    let sql = format!("{} {}", t.render(), it.sql());
+                    let name = format!("n{}_{}", mi, k);
+                    b1.extend_from_slice(&proto::parse(&name, &sql, &[]));
+                    b2.extend_from_slice(&proto::bind("", &name, &[], &[], &[]));
+                    b2.extend_from_slice(&proto::execute("", 0));
+                    sqls.push(sql);
+                }
+                b1.extend_from_slice(&proto::sync());
+                b2.extend_from_slice(&proto::sync());
+                let accepted = sqls.iter().all(|s| Parser::parse_sql(&PostgreSqlDialect {}, s).is_ok());
+                cli.send(&b1).await;
+                let (_m1, e1) = cli.read_until_ready(wire::T_REPLY).await;
+                let mut session_over = true;
+                if matches!(e1, ReadEnd::Ready(_)) {
+                    cli.send(&b2).await;
+                    let (m2, e2) = cli.read_until_ready(wire::T_REPLY).await;
+                    // a Bind of a name the pooler does not know ends the client session (observed behaviour, not part of the property)
+                    session_over = !matches!(e2, ReadEnd::Ready(_)) || m2.iter().any(|x| x.code == b'E' && proto::error_message(&x.body).contains("does not exist"));
+                }
+                tokio::time::sleep(Duration::from_millis(10)).await;
+                if accepted && c.enabled {
+                    for (k, it) in items.iter().enumerate() {
+                        if !it.must_deny() {
+                            continue;
+                        }
+                        o.nontrivial = true;
+                        o.label("bind_of_denied_named_statement");
+                        if let Item::Table { position, spelling: sp } = it {
+                            if tag_seen(&env, tags[k]) {
+                                o.fail(
+                                    &format!("denied-statement-reached-server:pos={}:sp={}:named-then-bind{}", position_name(*position), spelling_name(*sp), if c.cache { ":cache" } else { "" }),
+                                    format!("named Parse of {:?} (+Sync), then Bind/Execute of the names (+Sync): the statement on the listed table (tag {}) was received by a backend", sqls, tags[k].short()),
+                                );
+                                break 'msgs;
+                            }
+                        }
+                    }
+                }
+                if session_over || !cli.is_open() {
+                    break 'msgs;
                 }
             }
             Msg::BatchThenQuery(items) => {
